@@ -80,7 +80,7 @@ def model_obs(case):
 
 
 def run_structural(pid, tier, seed, prop_module, audit_file, profiles, oracle, projection, checker_cmd,
-                   note_assumptions=(), extra_lean_targets=(), known_classes=None, rule_note=""):
+                   note_assumptions=(), extra_lean_targets=(), known_classes=None, rule_note="", extra=None):
     """profiles: list of (generator-profile, n_quick, n_thorough)
     oracle(case, obs, A, norm) -> list of (class, message): failures of the property on the implementation
     projection(obs, A, norm) -> list of canonical lines: what the property looks at (for the correspondence)"""
@@ -159,6 +159,12 @@ def run_structural(pid, tier, seed, prop_module, audit_file, profiles, oracle, p
         "model_vs_impl_byte_identical": sum(1 for cs in cases if cs.get("same_bytes")),
     })
     c.assumptions += list(note_assumptions)
+
+    if extra is not None:
+        # property-specific additional observation (e.g. rustc on compiled batches); may add violations
+        for cls, msg, case in extra(c, cases):
+            oracle_fail.append((cls, msg, case))
+        c.cov["oracle_failures"] = len(oracle_fail)
 
     seen_known = set()
     for cls, msg, case in known_hits:
